@@ -77,8 +77,10 @@ fn gen_spec(t: &mut Tape) -> FmtSpec {
         fill_align: t.below(FMT_FILLS.len()),
         plus: t.bool(1, 3),
         zero: t.bool(1, 4),
-        width: if t.bool(2, 3) { Some(t.below(41)) } else { None },
-        precision: if t.bool(1, 2) { Some(t.below(21)) } else { None },
+        // mostly the grid of C15; one width in six is large (a fixed-size
+        // padding buffer shows there), one precision in eight beyond 20
+        width: if t.bool(2, 3) { Some(if t.bool(1, 6) { 41 + t.below(360) } else { t.below(41) }) } else { None },
+        precision: if t.bool(1, 2) { Some(if t.bool(1, 8) { 21 + t.below(60) } else { t.below(21) }) } else { None },
     }
 }
 
